@@ -18,7 +18,7 @@ def run(rep, tier, seed):
     rep.add_proof(pr)
     if not pr['ok']:
         rep.violation({'kind': 'proof-broken', 'log': pr['log'][-3000:], 'forbidden': pr['forbidden']}, suffix='no-failing-input-found')
-    nh, nops, mp = (8, 30, 150) if tier == 'quick' else (200, 60, 100000)
+    nh, nops, mp = (8, 30, 150) if tier == 'quick' else (96, 60, 100000)
     k3check.run_crash(rep, 'C03', tier, seed, ['written'], nh, nops, mp, OPTS, known_sig=known_sig, nested=(40 if tier == 'quick' else 6))
     k3check.log_gc_race_segment(rep, tier, seed + 77, label='threaded-build-log-unlink-image')      # pthread build: images taken at every log unlink while the client keeps writing
     import extra_wfile
